@@ -10,8 +10,8 @@ EXTENDS LineElements
 CONSTANTS
   Amps,          \* set of [id, typeDef, gainMin, flatMax, pMax, ripple]
   GainTargets(_),\* amplifier -> set of gain settings to explore
-  Variants,      \* set of [inVoa, outVoa, nIn, nOut, ramp]: VOA settings and shape of the load
-                 \*   nIn / nOut channels inside / outside the amplifier band, ramp = 1: non-flat comb
+  Variants,      \* set of [inVoa, outVoa, nIn, nOut, ramp, edge]: VOA settings and shape of the load
+                 \*   nIn / nOut channels inside / outside the amplifier band (edge = 1: just outside), ramp = 1: non-flat comb
   Tilts,         \* set of tilt settings
   PinTots,       \* set of total in-band input powers (before the input VOA)
   NGrids,        \* number of different frequency grids (same channel count) the successive loads are carried on
